@@ -28,7 +28,8 @@ def feed(ep, raw: bytes):
     return None
 
 
-SRC_TARGETS = ["SENDING_FILE_DATA", "WAITING_FOR_EOF_ACK", "WAITING_FOR_FINISHED", "IDLE_FRESH", "IDLE_AFTER_TRANSACTION"]
+SRC_TARGETS = ["SENDING_METADATA", "SENDING_FILE_DATA", "RETRANSMITTING", "WAITING_FOR_EOF_ACK", "WAITING_FOR_FINISHED", "SENDING_ACK_OF_FINISHED", "IDLE_FRESH",
+               "IDLE_AFTER_TRANSACTION"]
 
 
 def src_to(w: World, target: str) -> bool:
@@ -40,8 +41,16 @@ def src_to(w: World, target: str) -> bool:
     for _ in range(w.cfg["size"] + 10):
         S.sm()
         S.outbox.clear()
+        if target == "SENDING_METADATA":
+            return S.h.step.name == target
         if target == "SENDING_FILE_DATA" and S.h.step.name == "SENDING_FILE_DATA":
             return True
+        if target == "RETRANSMITTING" and S.h.step.name == "SENDING_FILE_DATA" and S.h.progress > 0:
+            # (acknowledged mode only) a NAK for the first bytes is served: the handler rests in RETRANSMITTING until its next call
+            n = min(4, S.h.progress)
+            feed(S, pdugen.raw("NAK", tx_conf(w), {"scope": (0, n), "reqs": [(0, n)]}))
+            S.outbox.clear()
+            return S.h.step.name == target
         if S.h.step.name in ("WAITING_FOR_EOF_ACK", "WAITING_FOR_FINISHED", "IDLE"):
             break
     if target == "WAITING_FOR_EOF_ACK":
@@ -50,6 +59,12 @@ def src_to(w: World, target: str) -> bool:
         feed(S, pdugen.raw("ACK_EOF", tx_conf(w)))
         S.outbox.clear()
     if target == "WAITING_FOR_FINISHED":
+        return S.h.step.name == target
+    if target == "SENDING_ACK_OF_FINISHED":
+        # (acknowledged mode only) the Finished PDU was received, its ACK is queued: the handler rests here until its next call
+        if S.h.step.name == "WAITING_FOR_FINISHED":
+            feed(S, pdugen.raw("FIN", tx_conf(w)))
+            S.outbox.clear()
         return S.h.step.name == target
     if target == "IDLE_AFTER_TRANSACTION":
         if S.h.step.name == "WAITING_FOR_FINISHED":
@@ -68,6 +83,7 @@ def src_to(w: World, target: str) -> bool:
 
 DST_TARGETS = [
     "IDLE_FRESH",
+    "SENDING_EOF_ACK_PDU",
     "RECEIVING_FILE_DATA",
     "WAITING_FOR_METADATA",
     "WAITING_FOR_METADATA_DEFERRED",
@@ -111,6 +127,13 @@ def dst_to(w: World, target: str) -> bool:
         return D.h.step.name == target
     if target == "WAITING_FOR_METADATA":
         go(fd(0))
+        return D.h.step.name == target
+    if target == "SENDING_EOF_ACK_PDU":
+        # (acknowledged mode only) everything arrived; the ACK of the EOF is queued and the handler rests here until its next call
+        go(md)
+        for off in range(0, len(data), seg):
+            go(fd(off))
+        go(eof)
         return D.h.step.name == target
     if target == "WAITING_FOR_METADATA_DEFERRED":
         go(fd(0))
